@@ -200,27 +200,74 @@ theorem planar_gap {α : Type*} [PseudoMetricSpace α] (P1 P2 : Set α) (z h1 h2
       simp only [sub_self, ne_eq, OfNat.ofNat_ne_zero, not_false_eq_true, zero_pow, add_zero]
       rw [Real.sqrt_sq dist_nonneg, hatt]
 
+/-! ### `MeshVolumeRegion.minimumDistanceTo` -/
+
+/-- what the proof needs from the data of `MeshVolumeRegion.minimumDistanceTo` / `_fclDistanceData` -/
+structure VolDistCfg.Sound (c : VolDistCfg) : Prop where
+  pos : ∀ x, c.posCmp.eval x c.posThr = true ↔ 0 < x
+  conn : ∀ a b, c.conn.eval a b = (a && b)
+  nestedRet : c.nestedRet ≤ 0
+  bvhOnly : c.bvhOnly = true
+
+/-- Contract (in any space `β` with a distance function `δ`): FCL's triangle-level distance between BVH
+models measures the gap between the *surfaces*: for disjoint solids it is positive and is the attained gap
+of the solids (nothing is assumed when the solids overlap: crossing surfaces give `≤ 0`, a nested volume a
+positive value); this exactness is assumed of BVH models only (`bvhOnly`), not of FCL's GJK distance between
+`fcl.Convex` geometries; `intersects` returns the ground truth (`intersects_correct`). -/
+structure VolDistContract {β : Type*} (δ : β → β → ℝ) (SA SB : Set β) (c : VolDistCfg) (o : VolDistObs) :
+    Prop where
+  fclGap : c.bvhOnly = true → ¬ (SA ∩ SB).Nonempty → 0 < (o.fclDist : ℝ) ∧ IsGap δ SA SB (o.fclDist : ℝ)
+  intersectsTruth : o.volIntersects = true ↔ (SA ∩ SB).Nonempty
+
+/-- **`MeshVolumeRegion.minimumDistanceTo` is never positive on overlap (nested volumes included) and is the
+true gap otherwise.** -/
+theorem volumeMinimumDistance_correct {β : Type*} {δ : β → β → ℝ} (c : VolDistCfg) (hc : c.Sound)
+    {SA SB : Set β} {o : VolDistObs} (h : VolDistContract δ SA SB c o) :
+    (((volumeMinimumDistance c o).1 : ℝ) ≤ 0 ↔ (SA ∩ SB).Nonempty) ∧
+    (0 < ((volumeMinimumDistance c o).1 : ℝ) → IsGap δ SA SB ((volumeMinimumDistance c o).1 : ℝ)) := by
+  unfold volumeMinimumDistance
+  rw [hc.conn]
+  by_cases hn : (c.posCmp.eval o.fclDist c.posThr && o.volIntersects) = true
+  · rw [if_pos hn]
+    simp only [Bool.and_eq_true] at hn
+    have hov : (SA ∩ SB).Nonempty := h.intersectsTruth.1 hn.2
+    have hle : ((c.nestedRet : Rat) : ℝ) ≤ 0 := by exact_mod_cast hc.nestedRet
+    exact ⟨⟨fun _ => hov, fun _ => hle⟩, fun hpos => absurd hpos (not_lt.2 hle)⟩
+  · rw [if_neg hn]
+    show ((o.fclDist : ℝ) ≤ 0 ↔ _) ∧ (0 < (o.fclDist : ℝ) → _)
+    by_cases hov : (SA ∩ SB).Nonempty
+    · -- overlapping and the correction not taken: the FCL distance was not positive
+      have hi : o.volIntersects = true := h.intersectsTruth.2 hov
+      have hnp : ¬ c.posCmp.eval o.fclDist c.posThr = true := fun hp => hn (by simp [hp, hi])
+      have hle : o.fclDist ≤ 0 := not_lt.1 (fun hlt => hnp ((hc.pos _).2 hlt))
+      have hle' : (o.fclDist : ℝ) ≤ 0 := by exact_mod_cast hle
+      exact ⟨⟨fun _ => hov, fun _ => hle'⟩, fun hpos => absurd hpos (not_lt.2 hle')⟩
+    · obtain ⟨hpos, hgap⟩ := h.fclGap hc.bvhOnly hov
+      exact ⟨⟨fun hle => absurd hpos (not_lt.2 hle), fun hh => absurd hh hov⟩, fun _ => hgap⟩
+
+/-! ### `Object.minimumDistanceTo` -/
+
 structure DistCfg.Sound (c : DistCfg) : Prop where
   z : ∀ a b, c.zCmp.eval a b = true → a = b
 
-/-- Contract: planar boxes are prisms; shapely's polygon distance is the gap of the footprints; FCL's
-distance is non-positive exactly on overlap and is the gap otherwise. -/
+/-- Contract: planar boxes are prisms; shapely's polygon distance is the gap of the footprints; the volume
+path satisfies `VolDistContract`. -/
 structure DistContract {α : Type*} [MetricSpace α] (SA SB : Set (α × ℝ)) (P1 P2 : Set α) (hS hO : ℝ)
-    (o : DistObs) : Prop where
+    (vc : VolDistCfg) (o : DistObs) : Prop where
   hSnn : 0 ≤ hS
   hOnn : 0 ≤ hO
   planarS : o.selfPlanar = true → SA = prism P1 o.zS hS
   planarO : o.otherPlanar = true → SB = prism P2 o.zO hO
   poly : IsGap dist P1 P2 (o.polyDist : ℝ)
-  volumeSign : (o.volumeDist : ℝ) ≤ 0 ↔ (SA ∩ SB).Nonempty
-  volumeGap : 0 < (o.volumeDist : ℝ) → IsGap dist3 SA SB (o.volumeDist : ℝ)
+  vol : VolDistContract dist3 SA SB vc { fclDist := o.fclDist, volIntersects := o.volIntersects }
 
 /-- **The reported minimum distance is never positive on overlap and equals the true gap otherwise**,
-on the planar fast path as well as on the FCL path. -/
-theorem min_dist_sign {α : Type*} [MetricSpace α] (c : DistCfg) (hc : c.Sound) {SA SB : Set (α × ℝ)}
-    {P1 P2 : Set α} {hS hO : ℝ} {o : DistObs} (h : DistContract SA SB P1 P2 hS hO o) :
-    (((minimumDistance c o).1 : ℝ) ≤ 0 ↔ (SA ∩ SB).Nonempty) ∧
-    (0 < ((minimumDistance c o).1 : ℝ) → IsGap dist3 SA SB ((minimumDistance c o).1 : ℝ)) := by
+on the planar fast path as well as on the FCL path (with its nested-volume correction). -/
+theorem min_dist_sign {α : Type*} [MetricSpace α] (c : DistCfg) (hc : c.Sound) (vc : VolDistCfg)
+    (hvc : vc.Sound) {SA SB : Set (α × ℝ)}
+    {P1 P2 : Set α} {hS hO : ℝ} {o : DistObs} (h : DistContract SA SB P1 P2 hS hO vc o) :
+    (((minimumDistance c vc o).1 : ℝ) ≤ 0 ↔ (SA ∩ SB).Nonempty) ∧
+    (0 < ((minimumDistance c vc o).1 : ℝ) → IsGap dist3 SA SB ((minimumDistance c vc o).1 : ℝ)) := by
   unfold minimumDistance
   by_cases hf : (o.selfPlanar && o.otherPlanar && c.zCmp.eval o.zS o.zO) = true
   · rw [if_pos hf]
@@ -252,6 +299,31 @@ theorem min_dist_sign {α : Type*} [MetricSpace α] (c : DistCfg) (hc : c.Sound)
       rw [dist_self] at this
       exact this
   · rw [if_neg hf]
-    exact ⟨h.volumeSign, h.volumeGap⟩
+    exact volumeMinimumDistance_correct vc hvc h.vol
+
+/-! ## `MeshVolumeRegion.isConvex` -/
+
+/-- the hull-volume guard: the comparison only succeeds when the mesh fills its hull up to a relative
+tolerance of at most `1/1000` -/
+structure ConvexCfg.Sound (c : ConvexCfg) : Prop where
+  overrideFirst : c.overrideFirst = true
+  needsTrimesh : c.needsTrimesh = true
+  vol : ∀ o, c.volCmp.eval (c.volLhs o) (c.volRhs o) = true → 0 ≤ o.hullVol →
+    o.hullVol - o.vol ≤ o.hullVol / 1000
+
+/-- **`isConvex` without a constructor override answers `true` only for meshes that pass trimesh's edge
+test *and* fill their convex hull** (a mesh boolean that leaves a reflex edge between faces that do not
+share vertex indices is no longer called convex); with an override the override is returned. -/
+theorem isConvexFlag_sound (c : ConvexCfg) (hc : c.Sound) (o : ConvexObs) :
+    (∀ b, o.override = some b → isConvexFlag c o = b) ∧
+    (o.override = none → isConvexFlag c o = true → 0 ≤ o.hullVol →
+      o.trimeshConvex = true ∧ o.hullVol - o.vol ≤ o.hullVol / 1000) := by
+  unfold isConvexFlag
+  rw [hc.overrideFirst, hc.needsTrimesh]
+  constructor
+  · intro b hb; simp [hb]
+  · intro hn hflag hnn
+    simp only [hn, if_true, Bool.and_eq_true] at hflag
+    exact ⟨hflag.1, hc.vol o hflag.2 hnn⟩
 
 end Scenic.Solid
